@@ -427,6 +427,12 @@ RCP<const Basic> add(const RCP<const Basic> &a, const RCP<const Basic> &b)
     SymEngine::umap_basic_num d;
     RCP<const Number> coef;
     RCP<const Basic> t;
+    if (is_a_Number(*a) and is_a_Number(*b)) {
+        // the dictionary path below drops an inexact zero only when it
+        // comes first: add(0.0, 1) gave 1 but add(1, 0.0) gave 1.0
+        return addnum(rcp_static_cast<const Number>(a),
+                      rcp_static_cast<const Number>(b));
+    }
     if (is_a<Add>(*a) and is_a<Add>(*b)) {
         coef = (down_cast<const Add &>(*a)).get_coef();
         d = (down_cast<const Add &>(*a)).get_dict();
